@@ -236,3 +236,57 @@ func (n *Node) BackPush(h int64) (cbErr error, err error) {
 func (n *Node) BackQuery(h int64) (cbErr error, err error) {
 	return n.backAsync(h, func(bs *cs.BackSession, cb func(error)) { bs.QuerySession(cb) })
 }
+
+// ScriptStep is one step of a pipelined back-session script.
+type ScriptStep struct {
+	Kind string // "set" | "push" | "query"
+	K    string
+	V    *Val
+}
+
+// BackScript runs the steps on handle h inside ONE turn of the owning service (nothing is
+// awaited between them, so no acknowledgement can be handled before the last step), then
+// waits for the callbacks of all pushes / queries.  It returns, in step order, whether each
+// push / query callback reported success.
+func (n *Node) BackScript(h int64, steps []ScriptStep) (acks []bool, err error) {
+	bh := n.handle(h)
+	type res struct {
+		idx int
+		err error
+	}
+	done := make(chan res, len(steps)+1)
+	nacks := 0
+	if err = n.Svc(bh.inst).Exec(func() {
+		for _, st := range steps {
+			switch st.Kind {
+			case "set":
+				if st.K == cs.KeyUId && st.V != nil && st.V.Kind == "str" {
+					bh.bs.Bind(st.V.S)
+				} else {
+					bh.bs.Set(st.K, st.V.Go())
+				}
+			case "push":
+				i := nacks
+				nacks++
+				bh.bs.PushSession(func(e error) { done <- res{i, e} })
+			case "query":
+				i := nacks
+				nacks++
+				bh.bs.QuerySession(func(e error) { done <- res{i, e} })
+			}
+		}
+	}); err != nil {
+		return nil, err
+	}
+	acks = make([]bool, nacks)
+	for got := 0; got < nacks; got++ {
+		select {
+		case r := <-done:
+			acks[r.idx] = r.err == nil
+		case <-time.After(waitTimeout):
+			return nil, errors.New("e2e: script callback never ran")
+		}
+	}
+	// the callbacks run before handleResponse returns; let the service finish that turn
+	return acks, n.Svc(bh.inst).Exec(func() {})
+}
